@@ -311,8 +311,12 @@ def receipt_predicate(sc, ev):
                 if want != log:
                     # for a segmented message the receipt reported last may be another segment's (the failing one): same message
                     return 'the receipt for id %s (message %s) was handed over with log_id %s' % (mid, want, log)
+    # a message whose response the Receiver got to only after the request had outlived its time-to-live (the received hook of
+    # this scenario holds the Receiver up for seconds per PDU) was reported as timed out; its response and its receipt then
+    # find nothing to be correlated with - the library never learnt the id
+    timed_out = {e[3] for e in ev if e[1] == 'send_error' and e[2] == 'SubmitSm'}
     for m in sc['msgs']:
-        if m.get('rcpt', 'none') == 'none':
+        if m.get('rcpt', 'none') == 'none' or m['log'] in timed_out:
             continue
         n = len(per_log.get(m['log'], []))
         if n > 1 and not sc.get('duplicate'):
